@@ -21,7 +21,7 @@ def run(ctx):
     nlines = 0
     if p.returncode == 0:
         wasm = ctx.work + "/h.wasm"
-        b = subprocess.run(["go", "build", "-o", wasm, "./wasm"], cwd=vlib.HARNESS, env=env, stdout=subprocess.PIPE,
+        b = subprocess.run(["go", "build"] + vlib.modfile_args(ctx.work) + ["-o", wasm, "./wasm"], cwd=vlib.HARNESS, env=env, stdout=subprocess.PIPE,
                            stderr=subprocess.STDOUT, text=True)
         if b.returncode != 0:
             vlib.log(b.stdout)
